@@ -25,6 +25,12 @@ def deps_union(*avs):
 class ModelBase:
     interp = None
 
+    def global_constant(self, v, module, name):
+        # the package-wide 'no site' marker
+        if name == 'NOSITE':
+            return v.w(idx=('SITE', True), nosite_marker=True)
+        return v
+
     # ------------------------------------------------------------------ helpers
     def deps_of(self, args, kwargs):
         out = frozenset()
@@ -491,6 +497,10 @@ class ModelBase:
             return ('SITE', False)
         if inner.ty == 'list' and inner.elem is not None and inner.elem.ty == 'Species':
             return ('ATOM',)
+        if inner.ty == 'zip' and inner.inners and inner.inners[0].ty == 'ndarray' and inner.inners[0].axes:
+            return {'atom': ('ATOM',), 'frame': ('FRAME', 'enum'), 'site': ('SITE', False)}.get(inner.inners[0].axes[0])
+        if inner.ty == 'ndarray' and inner.axes:
+            return {'atom': ('ATOM',), 'frame': ('FRAME', 'enum'), 'site': ('SITE', False)}.get(inner.axes[0])
         return None
 
     def maybe_empty_iter(self, it):
